@@ -145,10 +145,11 @@ def RFile.bindsAt (rf : RFile) (s : Slot) : Option (List (Option Extra)) := look
 /-- `Service.Reference` of service `s`. -/
 def RFile.svcRef (rf : RFile) (s : Bytes) : Option (Option Ref) := lookupB s rf.svcRefs
 
-/-- No global name contains a '.', is a base-type keyword or a container keyword.  (The IDL grammar
-excludes the keywords; it does allow dots in definition names, on which `getEnum` misbehaves.) -/
+/-- No global name is empty, contains a '.', is a base-type keyword or a container keyword.  (The
+IDL grammar excludes empty names and the keywords; it does allow dots in definition names, on which
+`getEnum` misbehaves.) -/
 def File.saneNames (f : File) : Bool :=
-  f.names.all fun n => (splitLastDot n).isNone && (specBase n).isNone && !isContainerName n
+  f.names.all fun n => !n.isEmpty && (splitLastDot n).isNone && (specBase n).isNone && !isContainerName n
 
 def Program.saneNames (p : Program) : Bool := p.all File.saneNames
 
